@@ -5,10 +5,12 @@ import PyrollProofs.ConfigLemmas
 
 Model: `PyrollModel/Config.lean`, an interpreter of the description `Config.src` of `pyroll/core/config.py` whose fields
 are the constants of `PyrollModel/Gen/C20.lean` — regenerated from the source on every run by
-`driver/translate/c20_config.py` (branch order of `ConfigValue.parse`, bool tests, enum `try/except` chain, separators and
-`strip` calls, order of the sources of `__get__`, `env_var` format, whether `ConfigMeta.update` raises).  The model is
-also run against the implementation by `driver/props/c20.py`.  Every theorem below is about `src`: a source change that
-alters one of those decisions changes `src` and the theorem that no longer follows stops building.
+`driver/translate/c20_config.py` (the branches of `ConfigValue.parse` in source order with the class each one tests, the kind of
+test and what it returns; bool tests, enum `try/except` chain, separators and `strip` calls; order of the sources and the slot of
+`__get__` / `__set__` / `__delete__`; the assignments of `__init__` / `__set_name__`; `env_var` format; what `to_dict` collects;
+whether `ConfigMeta.update` raises and what it returns; the decorator's name test).  The model is also run against the
+implementation by `driver/props/c20.py`.  Every theorem below is about `src`: a source change that alters one of those
+decisions changes `src` and the theorem that no longer follows stops building.
 
 Only property theorems (and their non-vacuity examples) live here; helper lemmas are in `PyrollProofs/ConfigLemmas.lean`.
 -/
@@ -32,9 +34,10 @@ def resolve (P : Parsers) (cv : CV) (x : Option V) (e : Option Text) : Except Er
 
 /-- reading a value in ANY state is `explicit <|> (env >>= parse) <|> default` -/
 theorem get_refines (P : Parsers) (cv : CV) (s : State) :
-    get src P cv s = resolve P cv (s.explicit (cv.cls, cv.name)) (s.env (envName src cv)) := by
-  simp only [get, src, Gen.C20.getOrder, getFrom, resolve, fromEnv]
-  cases s.explicit (cv.cls, cv.name) with
+    get src P cv s = resolve P cv (s.explicit (slotKey src cv.cls cv.name)) (s.env (envName src cv)) := by
+  show getFrom src P cv s [.explicit, .env, .default] = _
+  simp only [getFrom, resolve, fromEnv]
+  cases s.explicit (slotKey src cv.cls cv.name) with
   | none => cases s.env _ <;> rfl
   | some v =>
     by_cases hv : v = .none
@@ -47,7 +50,7 @@ is determined by the most recent write to its slot and the most recent write to 
 theorem get_after_history (P : Parsers) (D : List CV) (cv : CV) (s : State) (h : List Op) :
     get src P cv (run src D s h) =
       resolve P cv
-        (pick (lastWrite D (cv.cls, cv.name) h.reverse) (s.explicit (cv.cls, cv.name)))
+        (pick (lastWrite D (slotKey src cv.cls cv.name) h.reverse) (s.explicit (slotKey src cv.cls cv.name)))
         (pick (lastEnvWrite (envName src cv) h.reverse) (s.env (envName src cv))) := by
   rw [get_refines, explicit_run, env_run]
 
@@ -88,18 +91,20 @@ example : get src noParsers exA (step src exD State.init (.assign 0 ['A'] (.list
 
 /-- changing the environment does not change a value that is explicitly assigned -/
 theorem explicit_survives_env_change (P : Parsers) (D : List CV) (cv : CV) (s : State) (v : V) (op : Op)
-    (hx : s.explicit (cv.cls, cv.name) = some v) (hv : v ≠ .none)
+    (hx : s.explicit (slotKey src cv.cls cv.name) = some v) (hv : v ≠ .none)
     (hop : (∃ x t, op = .setenv x t) ∨ (∃ x, op = .unsetenv x)) :
     get src P cv (step src D s op).1 = .ok v := by
+  simp only [slotKey_src] at hx
   rw [get_refines, step_explicit]
   rcases hop with ⟨x, t, rfl⟩ | ⟨x, rfl⟩ <;> simp [writeOf, hx, resolve, hv, pick]
 
 /-- deleting the explicit value restores the next source: the environment if the variable is set, else the default -/
 theorem delete_restores_next (P : Parsers) (D : List CV) (cv : CV) (s : State) (v : V)
-    (hx : s.explicit (cv.cls, cv.name) = some v) :
+    (hx : s.explicit (slotKey src cv.cls cv.name) = some v) :
     (step src D s (.delete cv.cls cv.name)).2 = .ok ∧
     get src P cv (step src D s (.delete cv.cls cv.name)).1 = fromEnv P cv (s.env (envName src cv)) := by
-  refine ⟨by simp [step, hx], ?_⟩
+  simp only [slotKey_src] at hx
+  refine ⟨by simp [step, cvDelete, hx], ?_⟩
   rw [get_refines, step_explicit, step_env]
   simp [writeOf, envWriteOf, resolve, pick]
 
@@ -109,42 +114,127 @@ example : get src noParsers exA (step src exD ⟨fun _ => some (.int 0), fun _ =
     = .ok (.int 7) := by decide
 
 /-- deleting a value that is not assigned raises `AttributeError` and changes nothing -/
-theorem delete_unset_raises (D : List CV) (s : State) (c : Nat) (n : Text) (hx : s.explicit (c, n) = none) :
+theorem delete_unset_raises (D : List CV) (s : State) (c : Nat) (n : Text) (hx : s.explicit (slotKey src c n) = none) :
     step src D s (.delete c n) = (s, .err .attributeError) := by
-  simp [step, hx]
+  simp only [slotKey_src] at hx
+  simp [step, cvDelete, hx]
 
 /-- setting the variable of a value without explicit value makes it read the parsed text; removing it, the default -/
 theorem env_change_visible (P : Parsers) (D : List CV) (cv : CV) (s : State) (t : Text)
-    (hx : s.explicit (cv.cls, cv.name) = none) :
+    (hx : s.explicit (slotKey src cv.cls cv.name) = none) :
     get src P cv (step src D s (.setenv (envName src cv) t)).1 = parse src P cv t ∧
     get src P cv (step src D s (.unsetenv (envName src cv))).1 = .ok cv.default := by
+  simp only [slotKey_src] at hx
   constructor <;> (rw [get_refines, step_explicit, step_env]; simp [writeOf, envWriteOf, hx, resolve, fromEnv, pick])
 
 /-! ## Name of the environment variable -/
 
 /-- `PREFIX_NAME` (the name upper-cased) when the value does not name its own variable -/
-theorem env_name_default (cv : CV) (ho : cv.envOverride = []) (hp : cv.envPrefix ≠ []) :
+theorem env_name_default (cv : CV) (ho : cv.envOverride = []) :
     envName src cv = cv.envPrefix ++ ['_'] ++ cv.name.map upperC := by
-  simp [envName, ho, hp, src, Gen.C20.envSep, Gen.C20.envNameNorm, applyOps, applyOp]
+  simp [envName, ho, src, Gen.C20.envSep, Gen.C20.envNameNorm, applyOps, applyOp]
 
 /-- for the upper-case names the `config` decorator accepts this is literally `PREFIX_NAME` -/
-theorem env_name_upper (cv : CV) (ho : cv.envOverride = []) (hp : cv.envPrefix ≠ [])
+theorem env_name_upper (cv : CV) (ho : cv.envOverride = [])
     (hn : ∀ c ∈ cv.name, c ∉ lowers) : envName src cv = cv.envPrefix ++ ['_'] ++ cv.name := by
-  rw [env_name_default cv ho hp, map_upperC_of_upper hn]
+  rw [env_name_default cv ho, map_upperC_of_upper hn]
 
 /-- an `env_var=` override is used as it is -/
 theorem env_name_override (cv : CV) (ho : cv.envOverride ≠ []) : envName src cv = cv.envOverride := by
   simp [envName, ho]
 
-/-- without prefix the upper-cased module path of the owner (dots as underscores) is the prefix -/
-theorem env_name_module (cv : CV) (ho : cv.envOverride = []) (hp : cv.envPrefix = []) :
-    envName src cv = modulePrefix cv.module ++ ['_'] ++ cv.name.map upperC := by
-  simp [envName, ho, hp, src, Gen.C20.envSep, Gen.C20.envNameNorm, applyOps, applyOp]
+/-- a descriptor created WITHOUT prefix (`ConfigValue(default)` in a hand-written metaclass, `@config("")`) gets, when it is
+placed in its class (`__init__` then `__set_name__`), the upper-cased module path of the owner (dots as underscores) as prefix -/
+theorem env_name_module (a : InitArgs) (c : Nat) (n m : Text) (ho : a.envVar = []) (hp : a.envPrefix = []) :
+    envName src (declare src a c n m) = modulePrefix m ++ ['_'] ++ n.map upperC := by
+  rw [declare_src, env_name_default _ ho]
+  simp [prefixOr, hp]
+
+/-- … and one created with a prefix (and no variable of its own) reads `PREFIX_NAME` -/
+theorem env_name_declared (a : InitArgs) (c : Nat) (n m : Text) (ho : a.envVar = []) (hp : a.envPrefix ≠ []) :
+    envName src (declare src a c n m) = a.envPrefix ++ ['_'] ++ n.map upperC := by
+  rw [declare_src, env_name_default _ ho]
+  simp [prefixOr, hp]
 
 example : envName src exA = ['P', '_', 'A'] := by decide
 example : envName src { exA with name := ['a', 'b'] } = ['P', '_', 'A', 'B'] := by decide
 example : envName src { exA with envOverride := ['X', 'y'] } = ['X', 'y'] := by decide
-example : envName src { exA with envPrefix := [], module := ['p', '.', 'q'] } = ['P', '_', 'Q', '_', 'A'] := by decide
+example : envName src (declare src ⟨.int 7, .int, [], [], none⟩ 0 ['A'] ['p', '.', 'q']) = ['P', '_', 'Q', '_', 'A'] := by decide
+example : envName src (declare src ⟨.int 7, .int, [], ['P'], none⟩ 0 ['a'] ['p', '.', 'q']) = ['P', '_', 'A'] := by decide
+
+/-! ## `ConfigValue.__init__` and `__set_name__`: what a descriptor remembers -/
+
+/-- a descriptor created by `ConfigValue(default, env_var=…, env_var_prefix=…, parser=…)` and placed under the name `n` in the
+metaclass of class `c` (module `m`) remembers exactly: the default, THE TYPE OF THE DEFAULT as its type, the parser, its own
+variable, the prefix given or else the module path of the owner, its owner and its name -/
+theorem init_set_name_store_arguments (a : InitArgs) (c : Nat) (n m : Text) :
+    declare src a c n m = ⟨c, n, a.default, a.ty, a.parser, a.envVar, prefixOr a.envPrefix m, m⟩ := declare_src a c n m
+
+/-- … hence a freshly declared value reads its default, and with `PREFIX_NAME` in the environment the text parsed to the
+type of the default -/
+theorem declared_value_reads (P : Parsers) (a : InitArgs) (c : Nat) (n m : Text) (ho : a.envVar = []) (hp : a.envPrefix ≠ [])
+    (s : State) (hx : s.explicit (slotKey src c n) = none) :
+    (s.env (a.envPrefix ++ ['_'] ++ n.map upperC) = none → get src P (declare src a c n m) s = .ok a.default) ∧
+    (∀ t, s.env (a.envPrefix ++ ['_'] ++ n.map upperC) = some t →
+      get src P (declare src a c n m) s = parse src P ⟨c, n, a.default, a.ty, a.parser, [], a.envPrefix, m⟩ t) := by
+  have hd : declare src a c n m = ⟨c, n, a.default, a.ty, a.parser, [], a.envPrefix, m⟩ := by
+    rw [declare_src, ho]; simp [prefixOr, hp]
+  have hn : envName src (declare src a c n m) = a.envPrefix ++ ['_'] ++ n.map upperC := env_name_declared a c n m ho hp
+  simp only [slotKey_src] at hx
+  constructor
+  · intro he
+    rw [get_refines, hn, he]
+    rw [hd]
+    simp [resolve, fromEnv, hx]
+  · intro t he
+    rw [get_refines, hn, he]
+    rw [hd]
+    simp [resolve, fromEnv, hx]
+
+example : declare src ⟨.int 7, .int, [], ['P'], some 0⟩ 3 ['A'] ['m'] = ⟨3, ['A'], .int 7, .int, some 0, [], ['P'], ['m']⟩ := rfl
+example : get src noParsers (declare src ⟨.int 7, .int, [], ['P'], none⟩ 0 ['A'] ['m'])
+    ⟨fun _ => none, fun x => if x = ['P', '_', 'A'] then some ['1', '2'] else none⟩ = .ok (.int 12) := by decide
+example : get src noParsers (declare src ⟨.int 7, .int, [], ['P'], none⟩ 0 ['A'] ['m']) State.init = .ok (.int 7) := by decide
+
+/-! ## `ConfigValue.__set__` / `__delete__`: exactly the named value is touched -/
+
+/-- assigning `C.N = v` (a declared value) stores `v` in the slot `__get__` reads for `N`, deleting removes it; neither touches
+any other slot of any class nor the environment -/
+theorem set_delete_touch_exactly_named (D : List CV) (s : State) (c : Nat) (n : Text) (v : V) :
+    (known D c n = true → (step src D s (.assign c n v)).1.explicit (slotKey src c n) = some v) ∧
+    (step src D s (.delete c n)).1.explicit (slotKey src c n) = none ∧
+    (∀ k : Key, k ≠ slotKey src c n →
+      (step src D s (.assign c n v)).1.explicit k = s.explicit k ∧ (step src D s (.delete c n)).1.explicit k = s.explicit k) ∧
+    (step src D s (.assign c n v)).1.env = s.env ∧ (step src D s (.delete c n)).1.env = s.env := by
+  refine ⟨?_, ?_, ?_, ?_, ?_⟩
+  · intro hk; rw [step_explicit]; simp [writeOf, hk, pick]
+  · rw [step_explicit]
+    simp only [slotKey_src, writeOf, if_true, pick]
+  · intro k hk
+    have : (c, slotOf n) ≠ k := fun e => hk (by rw [slotKey_src, e])
+    constructor <;> (rw [step_explicit]; simp [writeOf, this, pick])
+  · funext x; rw [step_env]; rfl
+  · funext x; rw [step_env]; rfl
+
+/-- … so every OTHER configuration value (another name, or the same name in another class) reads what it read before -/
+theorem set_delete_leave_other_values (P : Parsers) (D : List CV) (cv : CV) (s : State) (c : Nat) (n : Text) (v : V)
+    (hne : (cv.cls, cv.name) ≠ (c, n)) :
+    get src P cv (step src D s (.assign c n v)).1 = get src P cv s ∧
+    get src P cv (step src D s (.delete c n)).1 = get src P cv s := by
+  have hk : slotKey src cv.cls cv.name ≠ slotKey src c n := by
+    intro e
+    simp only [slotKey_src, Prod.mk.injEq] at e
+    exact hne (by rw [e.1, slotOf_inj e.2])
+  obtain ⟨_, _, h3, h4, h5⟩ := set_delete_touch_exactly_named D s c n v
+  constructor
+  · rw [get_refines, get_refines, (h3 _ hk).1, h4]
+  · rw [get_refines, get_refines, (h3 _ hk).2, h5]
+
+example : get src noParsers exF (step src exD ⟨fun _ => none, fun _ => none⟩ (.assign 0 ['A'] (.int 0))).1 = .ok (.bool true) := by
+  decide
+example : (step src exD State.init (.assign 0 ['A'] (.int 0))).1.explicit (0, ['_', 'A']) = some (.int 0) := by decide
+example : (step src exD State.init (.assign 0 ['A'] (.int 0))).1.explicit (0, ['_', 'F']) = none := by decide
+example : (step src exD State.init (.assign 0 ['A'] (.int 0))).1.explicit (1, ['_', 'A']) = none := by decide
 
 /-! ## Bulk update -/
 
@@ -154,8 +244,8 @@ theorem update_exactly_named (D : List CV) (s : State) (c : Nat) (d : List (Text
     (hk : ∀ e ∈ d, known D c e.1 = true) (hnd : (d.map (·.1)).Nodup) :
     (step src D s (.update c d)).2 = .ok ∧
     (step src D s (.update c d)).1.env = s.env ∧
-    (∀ e ∈ d, (step src D s (.update c d)).1.explicit (c, e.1) = some e.2) ∧
-    (∀ k : Key, (k.1 ≠ c ∨ k.2 ∉ d.map (·.1)) → (step src D s (.update c d)).1.explicit k = s.explicit k) := by
+    (∀ e ∈ d, (step src D s (.update c d)).1.explicit (slotKey src c e.1) = some e.2) ∧
+    (∀ k : Key, (k.1 ≠ c ∨ k.2 ∉ d.map (slotOf ·.1)) → (step src D s (.update c d)).1.explicit k = s.explicit k) := by
   have hout : ∀ (d : List (Text × V)) (e : Key → Option V), (∀ x ∈ d, known D c x.1 = true) →
       (updateLoop src D c d e).2 = .ok := by
     intro d
@@ -167,7 +257,7 @@ theorem update_exactly_named (D : List CV) (s : State) (c : Nat) (d : List (Text
       simp only [updateLoop, h (n, v) (by simp), if_true]
       exact ih _ (fun y hy => h y (by simp [hy]))
   have hw : ∀ (d : List (Text × V)) (k : Key), (∀ x ∈ d, known D c x.1 = true) → (d.map (·.1)).Nodup →
-      updWrite D c k d = (d.find? (fun x => (c, x.1) = k)).map (·.2) := by
+      updWrite D c k d = (d.find? (fun x => (c, slotOf x.1) = k)).map (·.2) := by
     intro d k
     induction d with
     | nil => intro _ _; rfl
@@ -176,33 +266,33 @@ theorem update_exactly_named (D : List CV) (s : State) (c : Nat) (d : List (Text
       obtain ⟨n, v⟩ := x
       simp only [List.map_cons, List.nodup_cons] at hn
       simp only [updWrite, h (n, v) (by simp), if_true, ih (fun y hy => h y (by simp [hy])) hn.2, List.find?_cons]
-      by_cases he : (c, n) = k
-      · have : rest.find? (fun x => (c, x.1) = k) = none := by
+      by_cases he : (c, slotOf n) = k
+      · have : rest.find? (fun x => (c, slotOf x.1) = k) = none := by
           apply List.find?_eq_none.mpr
           intro y hy hyk
           have : y.1 = n := by
             have := he.trans (of_decide_eq_true hyk).symm
-            simp at this; exact this.symm
+            simp at this; exact (slotOf_inj this).symm
           exact hn.1 (by rw [← this]; exact List.mem_map_of_mem hy)
         simp [he, this]
       · simp only [he, decide_false]
-        cases rest.find? (fun x => (c, x.1) = k) <;> simp
+        cases rest.find? (fun x => (c, slotOf x.1) = k) <;> simp
   refine ⟨by simp [step, hout d _ hk], by simp [step], ?_, ?_⟩
   · intro e he
-    have : d.find? (fun x => (c, x.1) = (c, e.1)) = some e :=
-      find?_key_of_mem d hnd he (fun n => decide ((c, n) = (c, e.1))) (by intro n; simp)
-    rw [step_explicit]
+    have : d.find? (fun x => (c, slotOf x.1) = (c, slotOf e.1)) = some e :=
+      find?_key_of_mem d hnd he (fun n => decide ((c, slotOf n) = (c, slotOf e.1))) (by intro n; simp [slotOf])
+    rw [slotKey_src, step_explicit]
     simp only [writeOf]
     rw [hw d _ hk hnd, this]
     rfl
   · intro k hk'
-    have : d.find? (fun x => (c, x.1) = k) = none := by
+    have : d.find? (fun x => (c, slotOf x.1) = k) = none := by
       apply List.find?_eq_none.mpr
       intro y hy hyk
       have hyk := of_decide_eq_true hyk
       rcases hk' with h1 | h2
       · exact h1 (by rw [← hyk])
-      · exact h2 (by rw [← hyk]; exact List.mem_map_of_mem hy)
+      · exact h2 (by rw [← hyk]; exact List.mem_map_of_mem (f := fun x : Text × V => slotOf x.1) hy)
     rw [step_explicit]
     simp only [writeOf]
     rw [hw d _ hk hnd, this]
@@ -232,22 +322,22 @@ theorem update_rejects_unknown (D : List CV) (s : State) (c : Nat) (d : List (Te
 
 /-- … and even then no value that is not named, no value of another class and no environment variable changes -/
 theorem update_frame (D : List CV) (s : State) (c : Nat) (d : List (Text × V)) (k : Key)
-    (hk : k.1 ≠ c ∨ k.2 ∉ d.map (·.1)) :
+    (hk : k.1 ≠ c ∨ k.2 ∉ d.map (slotOf ·.1)) :
     (step src D s (.update c d)).1.explicit k = s.explicit k ∧ (step src D s (.update c d)).1.env = s.env := by
   refine ⟨?_, by simp [step]⟩
   rw [step_explicit]
-  have : ∀ d : List (Text × V), (k.1 ≠ c ∨ k.2 ∉ d.map (·.1)) → updWrite D c k d = none := by
+  have : ∀ d : List (Text × V), (k.1 ≠ c ∨ k.2 ∉ d.map (slotOf ·.1)) → updWrite D c k d = none := by
     intro d
     induction d with
     | nil => intro _; rfl
     | cons x rest ih =>
       intro h
       obtain ⟨n, v⟩ := x
-      have hr : k.1 ≠ c ∨ k.2 ∉ rest.map (·.1) := by
+      have hr : k.1 ≠ c ∨ k.2 ∉ rest.map (slotOf ·.1) := by
         rcases h with h | h
         · exact .inl h
         · exact .inr (fun hm => h (by simp [hm]))
-      have hne : (c, n) ≠ k := by
+      have hne : (c, slotOf n) ≠ k := by
         intro e
         rcases h with h | h
         · exact h (by rw [← e])
@@ -262,6 +352,92 @@ example : get src noParsers exA (step src exD State.init (.update 0 [(['A'], .in
 example : (step src exD State.init (.update 0 [(['A'], .int 0), (['Z'], .int 1)])).2 = .err .attributeError := by decide
 example : get src noParsers exF (step src exD State.init (.update 0 [(['A'], .int 0), (['Z'], .int 1)])).1
     = .ok (.bool true) := by decide
+
+/-! ## `ConfigMeta.to_dict` and what `update` returns
+
+`to_dict` is modelled as the source has it: every `ConfigValue` of the metaclass under its name - the DESCRIPTOR objects, not
+the values they resolve to. -/
+
+/-- the names listed by `to_dict` are exactly the declared configuration values of the class - the names `update` accepts -/
+theorem to_dict_names_exactly_declared (D : List CV) (c : Nat) (n : Text) :
+    n ∈ (toDict src D c).map (·.1) ↔ known D c n = true := by
+  simp only [toDict, known, lookupCV, List.find?_isSome, List.map_map, List.mem_map, List.mem_filter, Function.comp]
+  constructor
+  · rintro ⟨cv, ⟨hm, hc⟩, rfl⟩
+    exact ⟨cv, hm, by simp [hc]⟩
+  · rintro ⟨cv, hm, hp⟩
+    simp only [Bool.and_eq_true, beq_iff_eq] at hp
+    exact ⟨cv, ⟨hm, by simp [hp.1]⟩, hp.2⟩
+
+/-- … in declaration order, each one with ITS DESCRIPTOR (`to_dict` does not resolve the values) -/
+theorem to_dict_yields_descriptors (D : List CV) (c : Nat) :
+    toDict src D c = (D.filter (fun cv => cv.cls == c)).map fun cv => (cv.name, V.desc c cv.name) := rfl
+
+/-- `update` returns `to_dict()` when it accepts the names, and raises `AttributeError` otherwise -/
+theorem update_returns_to_dict (D : List CV) (s : State) (c : Nat) (d : List (Text × V)) :
+    ((∀ e ∈ d, known D c e.1 = true) → updateResult src D s c d = .ok (some (toDict src D c))) ∧
+    ((∃ e ∈ d, known D c e.1 = false) → updateResult src D s c d = .error .attributeError) := by
+  constructor
+  · intro hk
+    have h : ∀ (d : List (Text × V)) (e : Key → Option V), (∀ x ∈ d, known D c x.1 = true) →
+        (updateLoop src D c d e).2 = .ok := by
+      intro d
+      induction d with
+      | nil => intro e _; rfl
+      | cons x rest ih =>
+        intro e h
+        obtain ⟨n, v⟩ := x
+        simp only [updateLoop, h (n, v) (by simp), if_true]
+        exact ih _ (fun y hy => h y (by simp [hy]))
+    simp only [updateResult, h d _ hk]
+    rfl
+  · intro hu
+    have := update_rejects_unknown D s c d hu
+    simp only [step] at this
+    simp only [updateResult, this]
+
+/-- `C.update(C.to_dict())` is accepted (value names of a class are distinct) … -/
+theorem update_accepts_to_dict (D : List CV) (s : State) (c : Nat) :
+    (step src D s (.update c (toDict src D c))).2 = .ok := by
+  have hk : ∀ e ∈ toDict src D c, known D c e.1 = true := fun e he =>
+    (to_dict_names_exactly_declared D c e.1).mp (List.mem_map_of_mem he)
+  have h : ∀ (d : List (Text × V)) (e : Key → Option V), (∀ x ∈ d, known D c x.1 = true) →
+      (updateLoop src D c d e).2 = .ok := by
+    intro d
+    induction d with
+    | nil => intro e _; rfl
+    | cons x rest ih =>
+      intro e h
+      obtain ⟨n, v⟩ := x
+      simp only [updateLoop, h (n, v) (by simp), if_true]
+      exact ih _ (fun y hy => h y (by simp [hy]))
+  simp [step, h _ _ hk]
+
+/-- … but it is NOT the identity on the values: afterwards every value of the class reads as its own descriptor object, whatever
+it resolved to before (the dictionary holds descriptors, `update` stores them as explicit values).  The reading "to_dict = the
+resolved values, update(to_dict()) changes nothing" is false of the source and of the model. -/
+theorem update_to_dict_stores_descriptors (P : Parsers) (D : List CV) (s : State) (c : Nat) (cv : CV) (hm : cv ∈ D)
+    (hc : cv.cls = c) (hnd : ((D.filter (fun cv => cv.cls == c)).map (·.name)).Nodup) :
+    get src P cv (step src D s (.update c (toDict src D c))).1 = .ok (.desc c cv.name) := by
+  have hk : ∀ e ∈ toDict src D c, known D c e.1 = true := fun e he =>
+    (to_dict_names_exactly_declared D c e.1).mp (List.mem_map_of_mem he)
+  have hnd' : ((toDict src D c).map (·.1)).Nodup := by
+    have e : (toDict src D c).map (·.1) = (D.filter (fun cv => cv.cls == c)).map (·.name) := by
+      simp [toDict, List.map_map, Function.comp_def]
+    rw [e]; exact hnd
+  have hin : (cv.name, V.desc c cv.name) ∈ toDict src D c := by
+    rw [to_dict_yields_descriptors]
+    exact List.mem_map.mpr ⟨cv, List.mem_filter.mpr ⟨hm, by simp [hc]⟩, rfl⟩
+  have := (update_exactly_named D s c (toDict src D c) hk hnd').2.2.1 _ hin
+  rw [get_refines, hc, this]
+  simp [resolve]
+
+example : toDict src exD 0 = [(['A'], .desc 0 ['A']), (['F'], .desc 0 ['F'])] := by decide
+example : updateResult src exD State.init 0 [(['A'], .int 3)] = .ok (some [(['A'], .desc 0 ['A']), (['F'], .desc 0 ['F'])]) := rfl
+example : updateResult src exD State.init 0 [(['Z'], .int 3)] = .error .attributeError := rfl
+example : get src noParsers exA (step src exD State.init (.update 0 (toDict src exD 0))).1 = .ok (.desc 0 ['A']) := by decide
+example : get src noParsers exA State.init = .ok (.int 7) := by decide
+example : ((exD.filter (fun cv => cv.cls == 0)).map (·.name)).Nodup := by decide
 
 /-! ## Parsing inverts the natural text form -/
 
@@ -316,32 +492,33 @@ theorem parse_other_constructs (P : Parsers) (cv : CV) (k : Nat) (hty : cv.ty = 
     (t : Text) : parse src P cv t = .ok (.sym k t) := parse_other P cv t hty hp
 
 /-- enum members by number: the decimal text of a member's value, also with blanks around -/
-theorem parse_enum_by_number (P : Parsers) (cv : CV) (ms : List (Text × Int)) (hty : cv.ty = .enum ms)
-    (hp : cv.parser = none) (name : Text) (v : Int) (hm : (name, v) ∈ ms)
+theorem parse_enum_by_number (P : Parsers) (cv : CV) (mix : Mix) (ms : List (Text × Int)) (hty : cv.ty = .enum mix ms)
+    (hmix : mix.byNumber = true) (hp : cv.parser = none) (name : Text) (v : Int) (hm : (name, v) ∈ ms)
     {ws1 ws2 : Text} (h1 : AllP isNumSpace ws1) (h2 : AllP isNumSpace ws2) :
     parse src P cv (ws1 ++ renderInt v ++ ws2) = .ok (.enum v) := by
   rw [parse_enum P cv _ hty hp]
-  simp only [src, Gen.C20.enumLookups, enumChain, enumAttempt, pyInt_render h1 h2, hasValue_of_mem hm]
+  simp only [src, Gen.C20.enumLookups, enumChain, enumAttempt, pyInt_render h1 h2, hasValue_of_mem hm, hmix]
   simp
 
 /-- enum members by name: the exact name of ANY member (upper case or not), names being distinct and no numbers -/
-theorem parse_enum_by_name (P : Parsers) (cv : CV) (ms : List (Text × Int)) (hty : cv.ty = .enum ms)
+theorem parse_enum_by_name (P : Parsers) (cv : CV) (mix : Mix) (ms : List (Text × Int)) (hty : cv.ty = .enum mix ms)
     (hp : cv.parser = none) (name : Text) (v : Int) (hm : (name, v) ∈ ms) (hnd : (ms.map (·.1)).Nodup)
-    (hnum : NumberMiss ms name) : parse src P cv name = .ok (.enum v) := by
+    (hnum : NumberMissFor mix ms name) : parse src P cv name = .ok (.enum v) := by
   rw [parse_enum P cv _ hty hp]
-  simp only [src, Gen.C20.enumLookups, enumChain, enumAttempt_number_miss hnum]
+  simp only [src, Gen.C20.enumLookups, enumChain, enumAttempt_number_missFor hnum]
   simp [enumAttempt, applyOps, memberByName_of_mem hnd hm]
 
 /-- … and in another letter case, when no member carries that very spelling: the upper-cased text is looked up -/
-theorem parse_enum_by_name_anycase (P : Parsers) (cv : CV) (ms : List (Text × Int)) (hty : cv.ty = .enum ms)
-    (hp : cv.parser = none) (t : Text) (v : Int) (hnum : NumberMiss ms t) (hx : memberByName t ms = none)
-    (hup : memberByName (t.map upperC) ms = some v) : parse src P cv t = .ok (.enum v) := by
+theorem parse_enum_by_name_anycase (P : Parsers) (cv : CV) (mix : Mix) (ms : List (Text × Int))
+    (hty : cv.ty = .enum mix ms) (hp : cv.parser = none) (t : Text) (v : Int) (hnum : NumberMissFor mix ms t)
+    (hx : memberByName t ms = none) (hup : memberByName (t.map upperC) ms = some v) :
+    parse src P cv t = .ok (.enum v) := by
   rw [parse_enum P cv _ hty hp]
-  simp only [src, Gen.C20.enumLookups, enumChain, enumAttempt_number_miss hnum]
+  simp only [src, Gen.C20.enumLookups, enumChain, enumAttempt_number_missFor hnum]
   simp [enumAttempt, applyOps, applyOp, hx, hup]
 
 /-- an enum like `class Mode(Enum): Lower = 1; UPPER = 2` -/
-def exMode : CV := ⟨0, ['M'], .enum 2, .enum [(['L', 'o', 'w', 'e', 'r'], 1), (['U', 'P', 'P', 'E', 'R'], 2)], none, [],
+def exMode : CV := ⟨0, ['M'], .enum 2, .enum .plain [(['L', 'o', 'w', 'e', 'r'], 1), (['U', 'P', 'P', 'E', 'R'], 2)], none, [],
   ['P'], ['m']⟩
 
 example : parse src noParsers exMode ['L', 'o', 'w', 'e', 'r'] = .ok (.enum 1) := by decide
@@ -493,11 +670,11 @@ theorem unparseable_int_raises (P : Parsers) (cv : CV) (hty : cv.ty = .int) (hp 
 
 /-- a text that is no member's number, no member's name and not the lower/mixed-case spelling of a member's name is
 no enum member: `KeyError` -/
-theorem unparseable_enum_raises (P : Parsers) (cv : CV) (ms : List (Text × Int)) (hty : cv.ty = .enum ms)
-    (hp : cv.parser = none) (t : Text) (hnum : NumberMiss ms t) (hx : memberByName t ms = none)
+theorem unparseable_enum_raises (P : Parsers) (cv : CV) (mix : Mix) (ms : List (Text × Int)) (hty : cv.ty = .enum mix ms)
+    (hp : cv.parser = none) (t : Text) (hnum : NumberMissFor mix ms t) (hx : memberByName t ms = none)
     (hup : memberByName (t.map upperC) ms = none) : parse src P cv t = .error .keyError := by
   rw [parse_enum P cv _ hty hp]
-  simp only [src, Gen.C20.enumLookups, enumChain, enumAttempt_number_miss hnum]
+  simp only [src, Gen.C20.enumLookups, enumChain, enumAttempt_number_missFor hnum]
   simp [enumAttempt, applyOps, applyOp, hx, hup]
 
 /-- a mapping text with a piece that has not exactly one `=` is rejected: `ValueError` -/
@@ -517,9 +694,162 @@ example : parse src noParsers exM [] = .error .valueError := by decide
 
 /-- an unparseable environment text makes READING the value raise (the error is not swallowed into the default) -/
 theorem unparseable_env_raises (P : Parsers) (cv : CV) (s : State) (t : Text) (e : Err)
-    (hx : s.explicit (cv.cls, cv.name) = none) (he : s.env (envName src cv) = some t)
+    (hx : s.explicit (slotKey src cv.cls cv.name) = none) (he : s.env (envName src cv) = some t)
     (hp : parse src P cv t = .error e) : get src P cv s = .error e := by
   rw [get_refines, hx, he]; simp [resolve, fromEnv, hp]
+
+/-! ## The type lattice: a default's type may be a subclass of several dispatch classes
+
+`Ty.supers` / `Ty.exact` relate every value type to the classes `ConfigValue.parse` tests (`issubclass(self.type, T)` /
+`isinstance(self.default, T)` hold for every `T ∈ supers`, `self.type is T` for `T = exact` only).  `src.parseTests` lists the
+tests of the source in source order with the KIND of each test as the translator reads it.  The statement assigns every
+type ONE text form: that of its most specific dispatch class in the order `priority` - an enum class is an enum whatever
+data type it mixes in (`class Backend(str, Enum)`, `StrEnum`, `IntEnum`, `IntFlag`), `bool` comes before `int`, a text or a
+mapping before "some iterable". -/
+
+/-- the order of the statement: most specific reading first -/
+def priority : List Branch := [.enum, .bool, .path, .str, .int, .mapping, .iterable]
+
+/-- the dispatch class whose text form the statement demands for a type (`none`: no form of its own, `type(text)`) -/
+def Ty.demanded (ty : Ty) : Option Branch := priority.find? (fun b => ty.supers.contains b)
+
+/-- for EVERY well-formed type of the lattice the branch `parse` takes is the one of the most specific dispatch class; where
+`parse` falls through to `self.type(s)` the demanded form is one the constructor of the type reads itself (`Path(text)`,
+`int(text)`) or none at all -/
+theorem selected_branch_most_specific (ty : Ty) (hwf : ty.wf = true) :
+    match selectedTest ty src.parseTests with
+    | some b => ty.demanded = some b.cls
+    | none => ty.demanded = none ∨ ty.demanded = some .path ∨ ty.demanded = some .int := by
+  cases ty with
+  | bool => simp [selectedTest, src, Gen.C20.parseTests, Ty.passes, Ty.exact, Ty.supers, Ty.demanded, priority]
+  | path => simp [selectedTest, src, Gen.C20.parseTests, Ty.passes, Ty.exact, Ty.supers, Ty.demanded, priority]
+  | str => simp [selectedTest, src, Gen.C20.parseTests, Ty.passes, Ty.exact, Ty.supers, Ty.demanded, priority]
+  | int => simp [selectedTest, src, Gen.C20.parseTests, Ty.passes, Ty.exact, Ty.supers, Ty.demanded, priority]
+  | dict => simp [selectedTest, src, Gen.C20.parseTests, Ty.passes, Ty.exact, Ty.supers, Ty.demanded, priority]
+  | list => simp [selectedTest, src, Gen.C20.parseTests, Ty.passes, Ty.exact, Ty.supers, Ty.demanded, priority]
+  | tuple => simp [selectedTest, src, Gen.C20.parseTests, Ty.passes, Ty.exact, Ty.supers, Ty.demanded, priority]
+  | other c => simp [selectedTest, src, Gen.C20.parseTests, Ty.passes, Ty.exact, Ty.supers, Ty.demanded, priority]
+  | ntuple k => simp [selectedTest, src, Gen.C20.parseTests, Ty.passes, Ty.exact, Ty.supers, Ty.demanded, priority]
+  | enum mix ms =>
+    cases mix <;> simp [selectedTest, src, Gen.C20.parseTests, Ty.passes, Ty.exact, Ty.supers, Ty.demanded, priority]
+  | sub k b =>
+    simp only [Ty.wf, Bool.and_eq_true] at hwf
+    obtain ⟨hb, hs, _⟩ := root_of_subclassable b hwf.1 hwf.2
+    have key : ∀ r : Ty, r.isBase = true → b.supers = r.supers →
+        match selectedTest (.sub k b) src.parseTests with
+        | some t => (Ty.sub k b).demanded = some t.cls
+        | none => (Ty.sub k b).demanded = none ∨ (Ty.sub k b).demanded = some .path ∨ (Ty.sub k b).demanded = some .int := by
+      intro r hr hsr
+      cases r <;> first
+        | (simp [Ty.isBase] at hr; done)
+        | (simp [selectedTest, src, Gen.C20.parseTests, Ty.passes, Ty.exact, Ty.supers, Ty.demanded, priority, hsr])
+    exact key b.root hb hs
+
+-- non-vacuity: the branch taken by a `(str, Enum)` class is the enum branch (not the str one), `bool` takes the bool branch
+-- (not an int one), a user-defined str subclass the str-subclass branch (not the iterable one), a user-defined dict subclass
+-- the mapping branch; `PosixPath` and `int` fall through to their constructors
+example : selectedTest (.enum .str [(['A'], 1)]) src.parseTests = some ⟨.enum, .subclass, .std⟩ := by decide
+example : selectedTest (.enum (.flag 0) [(['A'], 1)]) src.parseTests = some ⟨.enum, .subclass, .std⟩ := by decide
+example : selectedTest .bool src.parseTests = some ⟨.bool, .identity, .std⟩ := by decide
+example : selectedTest (.sub 0 .str) src.parseTests = some ⟨.str, .subclass, .selfType⟩ := by decide
+example : selectedTest (.sub 1 (.sub 0 .dict)) src.parseTests = some ⟨.mapping, .subclass, .std⟩ := by decide
+example : selectedTest .path src.parseTests = none ∧ Ty.path.demanded = some .path := by decide
+example : selectedTest (.sub 0 .int) src.parseTests = none ∧ (Ty.sub 0 .int).demanded = some .int := by decide
+example : (Ty.sub 1 (.sub 0 .dict)).wf = true ∧ (Ty.sub 0 .bool).wf = false := by decide
+
+/-- "parsed to the TYPE OF THE DEFAULT": a default that is an instance of a user-defined subclass (of any depth) of `str`,
+`int`, `float`, `Path`, `list`, `tuple`, `dict` is read exactly like the built-in type - same text form, same errors - and
+the result is an instance of the subclass -/
+theorem parse_subclass_keeps_type (P : Parsers) (cv : CV) (k : Nat) (b : Ty) (hty : cv.ty = .sub k b)
+    (hwf : (Ty.sub k b).wf = true) (hp : cv.parser = none) (t : Text) :
+    parse src P cv t = (parse src P { cv with ty := b.root } t).map (V.inst k) := by
+  simp only [Ty.wf, Bool.and_eq_true] at hwf
+  obtain ⟨hb, hs, hrr⟩ := root_of_subclassable b hwf.1 hwf.2
+  rw [parseBranches_src_of_supers P cv t hp (by rw [hty]; rfl)]
+  have hroot : cv.ty.root = b.root := by rw [hty]; rfl
+  have hwrap : ∀ v, cv.ty.wrap v = V.inst k v := by intro v; rw [hty]; rfl
+  have hsup : cv.ty.supers = b.root.supers := by rw [hty]; exact hs
+  generalize hr : b.root = r at hb hroot hsup hrr
+  cases r with
+  | bool => cases hb
+  | enum _ _ => cases hb
+  | ntuple _ => cases hb
+  | sub _ _ => cases hb
+  | path =>
+    rw [parse_path P { cv with ty := _ } t rfl hp]
+    simp [hsup, Ty.supers, construct, hroot, constructRoot, Except.map, hwrap]
+  | str =>
+    rw [parse_str P { cv with ty := _ } t rfl hp]
+    simp [hsup, Ty.supers, runBranch, construct, hroot, constructRoot, Except.map, hwrap]
+  | int =>
+    rw [parse_int P { cv with ty := _ } t rfl hp]
+    simp only [hsup, Ty.supers, construct, hroot, constructRoot]
+    cases pyInt t <;> simp [Except.map, hwrap]
+  | other c =>
+    rw [parse_other P { cv with ty := _ } t rfl hp]
+    simp [hsup, Ty.supers, construct, hroot, constructRoot, Except.map, hwrap]
+  | dict =>
+    rw [parse_dict P { cv with ty := _ } t rfl hp]
+    simp only [hsup, Ty.supers, runBranch, hroot]
+    simp only [List.contains_cons, List.contains_nil]
+    simp
+    cases dictOf [] _ <;> simp [Except.map, hwrap]
+  | list =>
+    rw [parse_list P { cv with ty := _ } t rfl hp]
+    simp [hsup, Ty.supers, runBranch, hroot, itemsRoot, Except.map, hwrap]
+  | tuple =>
+    rw [parse_tuple P { cv with ty := _ } t rfl hp]
+    simp [hsup, Ty.supers, runBranch, hroot, itemsRoot, Except.map, hwrap]
+
+/-- a value whose default is a `class Name(str)` object, one whose default is a `class Items(list)` object -/
+def exSubStr : CV := ⟨0, ['N'], .inst 0 (.str ['x']), .sub 0 .str, none, [], ['P'], ['m']⟩
+def exSubList : CV := ⟨0, ['I'], .inst 3 (.list []), .sub 7 (.sub 3 .list), none, [], ['P'], ['m']⟩
+
+example : parse src noParsers exSubStr ['a', ',', 'b'] = .ok (.inst 0 (.str ['a', ',', 'b'])) := by decide
+example : parse src noParsers exSubList ['a', ',', ' ', 'b'] = .ok (.inst 7 (.list [['a'], ['b']])) := by decide
+example : parse src noParsers { exSubStr with ty := .sub 1 .int } ['4', '2'] = .ok (.inst 1 (.int 42)) := by decide
+example : parse src noParsers { exSubStr with ty := .sub 1 .int } ['x'] = .error .valueError := by decide
+example : parse src noParsers { exSubStr with ty := .sub 5 .dict } ['a', '=', '1'] = .ok (.inst 5 (.dict [(['a'], ['1'])])) := by
+  decide
+
+/-- a `NamedTuple` default has no text form: the iterable branch hands ONE argument to a constructor that wants the fields
+(`TypeError`) - stated, not hidden -/
+theorem parse_namedtuple_raises (P : Parsers) (cv : CV) (k : Nat) (hty : cv.ty = .ntuple k) (hp : cv.parser = none) (t : Text) :
+    parse src P cv t = .error .typeError := by
+  rw [parseBranches_src_of_supers P cv t hp (by rw [hty]; rfl)]
+  simp [hty, Ty.supers, runBranch, Ty.root, itemsRoot, Except.map]
+
+example : parse src noParsers { exSubStr with ty := .ntuple 9 } ['a', ',', 'b'] = .error .typeError := by decide
+
+/-- an enum whose members are `str` instances (`class Backend(str, Enum)`, `enum.StrEnum`): members by name as for every
+enum, the text itself is NOT returned, a text naming no member raises - the instances of the enum theorems above -/
+def exBackend : CV := ⟨0, ['B'], .enum 1, .enum .str [(['P', 'L', 'O', 'T', 'L', 'Y'], 1), (['M', 'p', 'l'], 2)], none, [],
+  ['P'], ['m']⟩
+
+example : parse src noParsers exBackend ['M', 'p', 'l'] = .ok (.enum 2) := by decide
+example : parse src noParsers exBackend ['p', 'l', 'o', 't', 'l', 'y'] = .ok (.enum 1) := by decide
+example : parse src noParsers exBackend ['g', 'n', 'u'] = .error .keyError := by decide
+example : parse src noParsers exBackend ['1'] = .error .keyError := by decide
+example : NumberMissFor .str [(['P', 'L', 'O', 'T', 'L', 'Y'], 1), (['M', 'p', 'l'], 2)] ['M', 'p', 'l'] := trivial
+example : parse src noParsers { exBackend with ty := .enum (.flag 4) [(['R'], 4), (['W'], 2)] } ['W'] = .ok (.enum 2) := by decide
+example : parse src noParsers { exBackend with ty := .enum (.flag 4) [(['R'], 4), (['W'], 2)] } ['4'] = .ok (.enum 4) := by decide
+example : parse src noParsers { exBackend with ty := .enum .int [(['R'], 4), (['W'], 2)] } ['6'] = .error .keyError := by decide
+
+/-! ### the defect found on the unrepaired tree (F21): a user-defined `str` subclass fell into the iterable branch
+
+`srcNoStrSubclass` is `src` without the `issubclass(self.type, str)` test, as the translator reads the unrepaired
+`config.py`: the only test on `str` is the identity test, which no subclass passes. -/
+
+def srcNoStrSubclass : Desc :=
+  { src with parseTests := src.parseTests.filter fun b => !(b.cls == .str && b.kind == .subclass) }
+
+/-- F21: there the branch taken by a `class Name(str)` default is the iterable one although the statement demands the string
+form, and the value read is `Name(str(<generator>))` - the repr of a generator object -/
+theorem F21_str_subclass_read_as_iterable :
+    selectedTest (.sub 0 .str) srcNoStrSubclass.parseTests = some ⟨.iterable, .subclass, .std⟩ ∧
+    (Ty.sub 0 .str).demanded = some .str ∧
+    parse srcNoStrSubclass noParsers exSubStr ['a', 'b'] = .ok (.inst 0 (.sym garbageCtor [])) := by
+  decide
 
 /-! ## The `config` decorator: which attributes of a user-defined class are configuration values
 
@@ -549,7 +879,8 @@ theorem decorator_selects_exactly_public_upper (c : Nat) (pre m : Text) (attrs :
 decorator's prefix and the module of the generated metaclass (attribute names of a class body are distinct) -/
 theorem decorator_declares (c : Nat) (pre m : Text) : ∀ (attrs : List Attr) (a : Attr), a ∈ attrs → PublicUpper a.name →
     (attrs.map (·.name)).Nodup →
-    lookupCV (decorate src c pre m attrs) c a.name = some ⟨c, a.name, a.default, a.ty, a.parser, a.envOverride, pre, m⟩ := by
+    lookupCV (decorate src c pre m attrs) c a.name
+      = some ⟨c, a.name, a.default, a.ty, a.parser, a.envOverride, prefixOr pre m, m⟩ := by
   intro attrs
   induction attrs with
   | nil => intro a ha; cases ha
@@ -571,8 +902,9 @@ theorem decorator_declares (c : Nat) (pre m : Text) : ∀ (attrs : List Attr) (a
 /-- its environment variable is literally `PREFIX_NAME` (digits, underscores, non-ASCII capitals included) -/
 theorem decorated_env_name (c : Nat) (pre m : Text) (a : Attr) (hn : PublicUpper a.name) (ho : a.envOverride = [])
     (hp : pre ≠ []) :
-    envName src ⟨c, a.name, a.default, a.ty, a.parser, a.envOverride, pre, m⟩ = pre ++ ['_'] ++ a.name :=
-  env_name_upper _ ho hp (not_lower_of_upperName hn.1)
+    envName src ⟨c, a.name, a.default, a.ty, a.parser, a.envOverride, prefixOr pre m, m⟩ = pre ++ ['_'] ++ a.name := by
+  rw [env_name_upper _ ho (not_lower_of_upperName hn.1)]
+  simp [prefixOr, hp]
 
 /-- hence EVERY upper-case public attribute of a decorated class is a configuration value that resolves as explicit value,
 else environment variable `PREFIX_NAME`, else the default written in the body — in every state -/
@@ -580,7 +912,7 @@ theorem decorated_value_resolves (P : Parsers) (c : Nat) (pre m : Text) (attrs :
     (hn : PublicUpper a.name) (hnd : (attrs.map (·.name)).Nodup) (s : State) :
     ∃ cv, lookupCV (decorate src c pre m attrs) c a.name = some cv ∧ cv.default = a.default ∧
       (a.envOverride = [] → pre ≠ [] → envName src cv = pre ++ ['_'] ++ a.name) ∧
-      get src P cv s = resolve P cv (s.explicit (c, a.name)) (s.env (envName src cv)) :=
+      get src P cv s = resolve P cv (s.explicit (slotKey src c a.name)) (s.env (envName src cv)) :=
   ⟨_, decorator_declares c pre m attrs a ha hn hnd, rfl, decorated_env_name c pre m a hn, get_refines P _ s⟩
 
 /-- names that are not upper-case public (leading underscore, lower / mixed case, no cased character) are NOT configuration
